@@ -1,14 +1,32 @@
 /* C10: channel-layout helpers of src/opus_multistream.c (real bodies): validate_layout and the three look-ups.
- * Loops are bounded by nb_channels <= 255 (the mapping array has 256 entries): unwound 256 times (class F),
- * layout and arguments fully symbolic. */
+ * The four loops run under loop contracts (ghost index verif_K = an arbitrary channel), layout and arguments fully symbolic. */
 #include "config.h"
 #include "common.h"
+/* loop contracts of the four look-up loops: ghost index verif_K stands for "every index" */
+int verif_K;
+#define LOOKUP_LOOP(TARGET) \
+  __CPROVER_assigns(i) \
+  __CPROVER_loop_invariant(i >= ((prev < 0) ? 0 : prev + 1) && (i <= layout->nb_channels || i == ((prev < 0) ? 0 : prev + 1))) \
+  __CPROVER_loop_invariant((((prev < 0) ? 0 : prev + 1) <= verif_K && verif_K < i && verif_K < layout->nb_channels) ==> layout->mapping[verif_K] != (TARGET)) \
+  __CPROVER_decreases(layout->nb_channels - i)
+#undef  OPUS_VERIF_LOOP_ms_get_left
+#define OPUS_VERIF_LOOP_ms_get_left  LOOKUP_LOOP(stream_id * 2)
+#undef  OPUS_VERIF_LOOP_ms_get_right
+#define OPUS_VERIF_LOOP_ms_get_right LOOKUP_LOOP(stream_id * 2 + 1)
+#undef  OPUS_VERIF_LOOP_ms_get_mono
+#define OPUS_VERIF_LOOP_ms_get_mono  LOOKUP_LOOP(stream_id + layout->nb_coupled_streams)
+#undef  OPUS_VERIF_LOOP_ms_validate_layout
+#define OPUS_VERIF_LOOP_ms_validate_layout \
+  __CPROVER_assigns(i) \
+  __CPROVER_loop_invariant(0 <= i && i <= layout->nb_channels) \
+  __CPROVER_loop_invariant((0 <= verif_K && verif_K < i) ==> (layout->mapping[verif_K] < max_channel || layout->mapping[verif_K] == 255)) \
+  __CPROVER_decreases(layout->nb_channels - i)
 #include "/repo/src/opus_multistream.c"
 VERIF_DEFINE_CELT_FATAL
 
 void h_validate_layout(void)
 {
-   ChannelLayout L; int r, k = nondet_int();
+   ChannelLayout L; int r, k = nondet_int(); verif_K = k;
    __CPROVER_assume(0 <= L.nb_channels && L.nb_channels <= 255 && 0 <= L.nb_streams && L.nb_streams <= 255 && 0 <= L.nb_coupled_streams && L.nb_coupled_streams <= 255);
    __CPROVER_assume(0 <= k && k < 255);
    r = validate_layout(&L);
@@ -23,7 +41,7 @@ void h_validate_layout(void)
 
 #define LOOKUP_HARNESS(NAME, FN, TARGET) \
 void h_##NAME(void) { \
-   ChannelLayout L; int sid = nondet_int(), prev = nondet_int(), r, k = nondet_int(); \
+   ChannelLayout L; int sid = nondet_int(), prev = nondet_int(), r, k = nondet_int(); verif_K = k; \
    __CPROVER_assume(0 <= L.nb_channels && L.nb_channels <= 255 && 0 <= L.nb_coupled_streams && L.nb_coupled_streams <= 255); \
    __CPROVER_assume(0 <= sid && sid <= 255 && -1 <= prev && prev < 255 && 0 <= k && k < 255); \
    r = FN(&L, sid, prev); \
